@@ -1,16 +1,32 @@
 /-
 C09 — State snapshots revert exactly and state copies are fully independent.
 
-Clause 1 (revert):   `revert_exact` (Props/C09Revert.lean), for ALL sequences of mutators with arbitrarily nested snapshot/revert
-                     pairs; side condition `Safe` only at `Suicide` (non-negative balances, private token map).
-                     The unconditional statement is false of the code: `C09_revert_unconditional_counterexample`.
-Secondary observable (root): `C09_root_statement` is false of the current code (`C09_root_counterexample`, known finding
-                     revert-leaves-zero-token-entry) and true on the same witness for the repaired journal entry.
-Clause 2 (copies):   `C09_copy_statement` is false of the current code (`C09_copy_counterexample`, known finding
-                     copy-shares-token-map); `copy_independent_partial` is the strongest statement true today;
-                     `C09_copy_repaired` proves the statement for the repaired `deepCopy`.
+The tree today: `deepCopy` clones the Tokens map (fix 9e64f31), `SetTokenBalance` still inserts an un-journalled zero entry:
+`Cfg.current = { cloneTokens := true, journalAbsent := false }`; `treeCfg` is the same configuration built from the facts
+re-extracted from the tree on every run (what the driver executes), and `treeCfg_eq_current` checks they agree — reverting the
+fix breaks that theorem (and the harness monitor `copy_independent` fires).
+
+Clause 1 (revert) — TRUE of the current tree:
+    `C09_revert_tree` = `revert_exact_any_ns`/`revert_exact_ns` for `treeCfg`: snapshot; ANY sequence of mutators, snapshots and
+    reverts to ARBITRARY ids; the outer revert panics (id consumed) or restores every observable; with inner reverts confined to
+    inner snapshots it succeeds.  Only side condition: non-negative balances where `Suicide` runs (`SafeNN`) — it cannot be
+    dropped: `C09_revert_unconditional_counterexample` (suicideChange forgets non-positive balances).
+    General versions for any Cfg, any state (shared cells allowed, then `Safe` also asks for a private map at Suicide):
+    `revert_exact`, `revert_exact_any`.
+Secondary observable (root) — FALSE of the current tree: `C09_root_counterexample` (known finding
+    revert-leaves-zero-token-entry: the un-journalled zero entry is encoded); equal on the same witness for `Cfg.repaired`.
+Clause 2 (copies) — TRUE of the current tree:
+    `C09_copy_tree : C09_copy_statement treeCfg` = `world_independent`: in a world of any number of states built by Copy from a
+    fresh state, a history of mutators, snapshots, reverts, Finalise, Commit and Copy on any handles changes no observable of a
+    handle it does not target.  Rests on `NS` (no shared token-map cell), preserved by every operation (Props/C09NoShared.lean).
+    `C09_copy_pinned_counterexample` keeps the refutation for the pinned tree (`Cfg.pinned`, before the fix) as a regression
+    witness: it is what a revert of 9e64f31 would make true of the code again.
+Not covered by Copy (known finding copy-misses-reset-object): a `CreateAccount` over an existing clean account is not dirty, so
+    the copy starts from the OLD account; this is a statement about the copy's INITIAL observables, not about independence, and
+    the model mirrors it (checked by the correspondence run and the `copy_faithful` monitor).
 -/
-import LinkVerif.Props.C09Copy
+import LinkVerif.Props.C09World
+import LinkVerif.Props.C09Journal
 import LinkVerif.Gen.C09Facts
 
 namespace Props.C09
@@ -126,40 +142,71 @@ theorem C09_root_counterexample : ¬ C09_root_statement Cfg.current := by
 
 /-! ## clause 2 -/
 
-/-- in a world without pre-existing shared cells: mutators on the copy never show in the original, mutators on the original
-never show in the copy -/
+/-- the property's second clause: starting from any world without shared cells (e.g. one fresh state), no history of operations
+that do not target handle `k` — whatever they do to other handles: mutate, snapshot, revert, finalise, commit, copy them, copy
+the copies — changes any observable of `k` -/
 def C09_copy_statement (cfg : Cfg) : Prop :=
-  ∀ (c : Ctx), NSo c.st → ∀ ops : List Op,
-    obsWith (runOps cfg { heap := (copy cfg c).1.heap, nextRef := (copy cfg c).1.nextRef, st := (copy cfg c).2 } ops).heap (copy cfg c).1.st
-      = obsWith c.heap c.st ∧
-    obsWith (runOps cfg (copy cfg c).1 ops).heap (copy cfg c).2 = obsWith (copy cfg c).1.heap (copy cfg c).2
+  ∀ (w : World), AllNS w → ∀ (ops : List WOp) (k : Nat), (∀ op ∈ ops, op.target ≠ k) → (wrun cfg w ops).obsAt k = w.obsAt k
 
-/-- account 1 holds 100 of token 1 and is dirty -/
-def copyWitness : Ctx := applyOp Cfg.current emptyCtx (.addTok 1 1 100)
+/-- proved for every configuration whose `deepCopy` clones the map -/
+theorem C09_copy_cloning (cfg : Cfg) (hc : cfg.cloneTokens = true) : C09_copy_statement cfg :=
+  fun w hw ops k hk => world_independent cfg hc ops k w hw hk
 
-theorem NSo_copyWitness : NSo copyWitness.st := (noShared_frame Cfg.current emptyCtx _ (by intro a o h; simp [emptyCtx, State.empty] at h)).2
+/-- the configuration of the tree as the extractor sees it now (the one the driver runs) -/
+def treeCfg : Cfg := { cloneTokens := Gen.C09Facts.deepCopyClonesTokens, journalAbsent := !Gen.C09Facts.zeroInsertBeforeJournal }
 
-/-- the copy of the witness, as a context over the shared heap -/
-def copySide (cfg : Cfg) : Ctx :=
-  { heap := (copy cfg copyWitness).1.heap, nextRef := (copy cfg copyWitness).1.nextRef, st := (copy cfg copyWitness).2 }
+/-- the tree is in the state this file describes: fix 9e64f31 present, zero entry still un-journalled -/
+theorem treeCfg_eq_current : treeCfg.cloneTokens = Cfg.current.cloneTokens ∧ treeCfg.journalAbsent = Cfg.current.journalAbsent := by decide
 
-/-- **known finding `copy-shares-token-map`**: Copy(); AddTokenBalance(1, token 1, 5) on the COPY; the ORIGINAL reads 105 -/
-theorem C09_copy_counterexample : ¬ C09_copy_statement Cfg.current := by
+/-- **clause 2 holds of the current tree** -/
+theorem C09_copy_tree : C09_copy_statement treeCfg := C09_copy_cloning treeCfg (by decide)
+
+/-- **clause 1 holds of the current tree** in every state of a world built by the cloning `Copy` (`NS`; see `AllNS_reachable`):
+arbitrary ids, panic or exact; side condition non-negative balances at `Suicide` only -/
+theorem C09_revert_tree (c : Ctx) (hw : WF c.st) (hB : ∀ p ∈ c.st.revs, p.1 < c.st.nextRev) (hn : NS c.st)
+    (steps : List Step) (hs : SafeNN treeCfg (snapshot c).1 steps) :
+    revertTo (run treeCfg (snapshot c).1 steps) (snapshot c).2 = none ∨
+    ∃ c2, revertTo (run treeCfg (snapshot c).1 steps) (snapshot c).2 = some c2 ∧ obs c2 = obs c :=
+  revert_exact_any_ns treeCfg c hw hB hn steps hs
+
+/-- account 1 holds 100 of token 1 and is dirty; handle 0 of a one-state world -/
+def copyWitness : Ctx := applyOp Cfg.pinned emptyCtx (.addTok 1 1 100)
+
+def witnessWorld : World := { heap := copyWitness.heap, nextRef := copyWitness.nextRef, states := upd (fun _ => none) 0 (some copyWitness.st) }
+
+theorem AllNS_witnessWorld : AllNS witnessWorld := by
+  intro h x hx
+  by_cases h0 : h = 0
+  · subst h0
+    simp [witnessWorld] at hx; subst hx
+    exact (applyOp_fn Cfg.pinned emptyCtx _ NS_empty).2
+  · simp [witnessWorld, h0] at hx
+
+/-- Copy(); AddTokenBalance(1, token 1, 5) on the COPY (handle 1); nothing targets handle 0 -/
+def witnessOps : List WOp := [.copy 0 1, .step 1 (.op (.addTok 1 1 5))]
+
+/-- what handle 0 reads for token 1 of account 1 -/
+def tokAt (w : World) : Option (Option Int) := (w.obsAt 0).map (fun o => (o.acct 1).map (·.tok 1))
+
+/-- **regression witness for the pinned tree** (`copy-shares-token-map`, fixed by 9e64f31): with the sharing `deepCopy` the
+original reads 105 after the copy moved 5 -/
+theorem C09_copy_pinned_counterexample : ¬ C09_copy_statement Cfg.pinned := by
   intro h
-  have h1 : obsWith (runOps Cfg.current (copySide Cfg.current) [.addTok 1 1 5]).heap (copy Cfg.current copyWitness).1.st = obsWith copyWitness.heap copyWitness.st :=
-    (h copyWitness NSo_copyWitness [.addTok 1 1 5]).1
-  have h2 : ((obsWith (runOps Cfg.current (copySide Cfg.current) [.addTok 1 1 5]).heap (copy Cfg.current copyWitness).1.st).acct 1).map (·.tok 1) = some 105 := by decide
-  have h3 : ((obsWith copyWitness.heap copyWitness.st).acct 1).map (·.tok 1) = some 100 := by decide
-  rw [h1, h3] at h2
+  have h1 := h witnessWorld AllNS_witnessWorld witnessOps 0 (by decide)
+  have h2 : tokAt (wrun Cfg.pinned witnessWorld witnessOps) = some (some 105) := by decide
+  have h3 : tokAt witnessWorld = some (some 100) := by decide
+  simp only [tokAt, h1] at h2
+  simp only [tokAt] at h3
+  rw [h3] at h2
   cases h2
 
-/-- the statement holds for the repaired `deepCopy` -/
-theorem C09_copy_repaired : C09_copy_statement Cfg.repaired :=
-  fun c hn ops => copy_independent_repaired Cfg.repaired rfl c hn ops
+/-- non-vacuity for the current tree: same world, same history — the original stays at 100 while the copy (handle 1) reads 105 -/
+example : tokAt (wrun Cfg.current witnessWorld witnessOps) = some (some 100) := by decide
+example : (((wrun Cfg.current witnessWorld witnessOps).obsAt 1).map (fun o => (o.acct 1).map (·.tok 1))) = some (some 105) := by decide
 
-/-- non-vacuity: on the witness of the counterexample the repaired code keeps the original at 100 while the copy moves to 105 -/
-example : ((obsWith (runOps Cfg.repaired (copySide Cfg.repaired) [.addTok 1 1 5]).heap (copy Cfg.repaired copyWitness).1.st).acct 1).map (·.tok 1) = some 100 := by decide
-example : ((obs (runOps Cfg.repaired (copySide Cfg.repaired) [.addTok 1 1 5])).acct 1).map (·.tok 1) = some 105 := by decide
+/-- non-vacuity of `C09_revert_tree`/`revert_exact_any`: an inner revert to the OUTER id consumes it — the outer revert then panics -/
+example : revertTo (run Cfg.current (snapshot emptyCtx).1 [.op (.addBal 1 5), .revert 0]) (snapshot emptyCtx).2 = none := by
+  simp [revertTo, run, stepCtx, snapshot, emptyCtx, State.empty, findRev, applyOp, ensure, createObject, setBalance, setCredits, putObj, push, peek, revertJournal]
 
 /-! ## T2 facts about the tree as it is now (regenerated on every check) -/
 
